@@ -287,9 +287,15 @@ def settled_after_effect(facts, body):
         if verdict not in SETTLED:
             continue
         viol = bb in after
-        cur = res.get(verdict)
+        label = verdict
+        if verdict == "WaitForStream" and e is not None and e.k == "agg" and e.args:
+            from .mir import self_field_path
+            fp = self_field_path(e.args[0])
+            if fp:
+                label = "WaitForStream(%s)" % ".".join(fp)     # which stream the block says it waits for is part of the identity
+        cur = res.get(label)
         if cur is None or (viol and not cur["violating"]):
-            res[verdict] = dict(violating=viol, ret_bb=bb, effect=desc.get(bb, ""), effect_where=desc.get(bb))
+            res[label] = dict(violating=viol, ret_bb=bb, effect=desc.get(bb, ""), effect_where=desc.get(bb))
     return res
 
 
